@@ -4,12 +4,12 @@
 use crate::constants::*;
 
 // ---- witness slots: bytes the harness wants back from a counterexample ----
-pub static mut W_0: [u8; 160] = [0; 160];
-pub static mut W_1: [u8; 160] = [0; 160];
-pub static mut W_2: [u8; 160] = [0; 160];
-pub static mut W_3: [u8; 160] = [0; 160];
-pub static mut W_4: [u8; 160] = [0; 160];
-pub static mut W_5: [u8; 160] = [0; 160];
+pub static mut W_0: [u8; 160] = [0xa0; 160];
+pub static mut W_1: [u8; 160] = [0xa1; 160];
+pub static mut W_2: [u8; 160] = [0xa2; 160];
+pub static mut W_3: [u8; 160] = [0xa3; 160];
+pub static mut W_4: [u8; 160] = [0xa4; 160];
+pub static mut W_5: [u8; 160] = [0xa5; 160];
 
 macro_rules! wit {
     ($slot:ident, $bytes:expr) => {{
@@ -32,30 +32,24 @@ pub fn fmt_stub(_args: core::fmt::Arguments<'_>) -> String {
 
 // ---- BLAKE2b compress transcript (stub for crate::blake2b::blake2b_soft::compress) ----
 pub const B2_CAP: usize = 6;
-pub static mut B2_N: usize = 0;
-pub static mut B2_HIN: [[u64; 8]; B2_CAP] = [[0; 8]; B2_CAP];
-pub static mut B2_T: [[u64; 2]; B2_CAP] = [[0; 2]; B2_CAP];
-pub static mut B2_F: [[u64; 2]; B2_CAP] = [[0; 2]; B2_CAP];
-pub static mut B2_BLK: [[u8; 128]; B2_CAP] = [[0; 128]; B2_CAP];
-pub static mut B2_HOUT: [[u64; 8]; B2_CAP] = [[0; 8]; B2_CAP];
 
 pub fn compress_log_stub(sh: &mut [u64; 8], st: &[u64; 2], sf: &[u64; 2], block: &[u8]) {
     unsafe {
-        let n = B2_N;
+        let n = B2S.b2_n;
         assert!(n < B2_CAP, "B2LOG_CAPACITY: more compress calls than the harness expects");
         assert!(block.len() == 128, "B2_BLOCKLEN: compress must be given exactly one 128-byte block");
-        B2_HIN[n] = *sh;
-        B2_T[n] = *st;
-        B2_F[n] = *sf;
+        B2S.b2_hin[n] = *sh;
+        B2S.b2_t[n] = *st;
+        B2S.b2_f[n] = *sf;
         let mut i = 0;
         while i < 128 {
-            B2_BLK[n][i] = block[i];
+            B2S.b2_blk[n][i] = block[i];
             i += 1;
         }
         let out: [u64; 8] = kani::any();
-        B2_HOUT[n] = out;
+        B2S.b2_hout[n] = out;
         *sh = out;
-        B2_N = n + 1;
+        B2S.b2_n = n + 1;
     }
 }
 
@@ -94,3 +88,26 @@ pub fn b2_out_bytes(h: &[u64; 8]) -> [u8; 64] {
     }
     o
 }
+
+// All mutable harness state of this file lives in ONE static with a unique magic first field: Kani/rustc
+// intern allocations by content, so a `static mut X: usize = 0` can end up being the *same object* as an
+// unrelated constant with the same bytes (observed: alloc::raw_vec ZERO_CAP aliased to a counter), and
+// writing to it would corrupt the program under test.
+pub struct B2State {
+    pub magic: u64,
+    pub b2_n: usize,
+    pub b2_hin: [[u64; 8]; B2_CAP],
+    pub b2_t: [[u64; 2]; B2_CAP],
+    pub b2_f: [[u64; 2]; B2_CAP],
+    pub b2_blk: [[u8; 128]; B2_CAP],
+    pub b2_hout: [[u64; 8]; B2_CAP],
+}
+pub static mut B2S: B2State = B2State {
+    magic: 0xB2B2000153EDC0DE,
+    b2_n: 0,
+    b2_hin: [[0; 8]; B2_CAP],
+    b2_t: [[0; 2]; B2_CAP],
+    b2_f: [[0; 2]; B2_CAP],
+    b2_blk: [[0; 128]; B2_CAP],
+    b2_hout: [[0; 8]; B2_CAP],
+};
